@@ -635,7 +635,9 @@ class Ctx:
             segs = strip_angle(c).split('::')
             if len(segs) >= 2:
                 out.append('::'.join(segs[-2:]))
-            out.append(segs[-1])
+            if len(segs) < 2 or not segs[-2][:1].isupper():
+                # a bare function name only for free functions (module paths), never for `Type::method` of a foreign type
+                out.append(segs[-1])
         return out
 
     def call(self, fn, callee, args):
